@@ -432,6 +432,9 @@ func NodeStartPos(node *Node) token.LnColPos {
 
 	case TypeIndexExpr:
 		if node.IndexExpr().Obj == nil { // `.[i]`
+			if node.IndexExpr().Dot.Ln > 0 {
+				return node.IndexExpr().Dot
+			}
 			if len(node.IndexExpr().LBracket) > 0 {
 				return node.IndexExpr().LBracket[0]
 			}
